@@ -16,7 +16,7 @@ from math import gcd, isqrt
 
 
 class Atom:
-    __slots__ = ('id', 'name', 'kind', 'sign', 'is_int', 'arg', 'fn', 'meta')
+    __slots__ = ('id', 'name', 'kind', 'sign', 'is_int', 'arg', 'fn', 'meta', 'persistent')
 
     def __init__(self, id, name, kind, sign=None, is_int=False, arg=None, fn=None):
         self.id = id
@@ -45,17 +45,50 @@ class Universe:
 
     def new(self, name, kind, **kw) -> Atom:
         a = Atom(len(self.atoms), name, kind, **kw)
+        a.persistent = PERSIST['on']
         self.atoms.append(a)
         self.by_name[name] = a
         return a
 
 
+# Atoms created while a module under test is being imported (symbolic module-level constants such as 2*pi or
+# sqrt(2 ln 2)) live as long as the module: they keep their ids across universe resets.
+PERSIST = {'on': False, 'memo': None}
 U = Universe()
+
+
+def begin_persistent():
+    PERSIST['on'] = True
+    PERSIST['memo'] = (set(U.sqrt_memo), set(U.abs_memo), set(U.fn_memo))
+
+
+def end_persistent():
+    PERSIST['on'] = False
+    before = PERSIST['memo'] or (set(), set(), set())
+    keep = getattr(U, 'persist_memo', ({}, {}, {}))
+    for d, old, dst in zip((U.sqrt_memo, U.abs_memo, U.fn_memo), before, keep, strict=True):
+        for k, v in d.items():
+            if k not in old:
+                dst[k] = v
+    U.persist_memo = keep
 
 
 def reset_universe():
     global U
+    old = U
     U = Universe()
+    pers = [a for a in old.atoms if a is not None and getattr(a, 'persistent', False)]
+    if pers:
+        U.atoms = [None] * (max(a.id for a in pers) + 1)
+        for a in pers:
+            U.atoms[a.id] = a
+            U.by_name[a.name] = a
+        keep = getattr(old, 'persist_memo', ({}, {}, {}))
+        U.sqrt_memo.update(keep[0])
+        U.abs_memo.update(keep[1])
+        U.fn_memo.update(keep[2])
+        U.persist_memo = keep
+        U.fresh_counter = old.fresh_counter
     return U
 
 
